@@ -186,6 +186,18 @@ def all_cases(tier: str, curve: str, ki: int):
         for ch in chains:
             yield {'curve': curve, 'key': encoded_secret(curve, ki), 'chain_id': ch,
                    'group': {'branch': c06.BRANCHES[n % 2], 'contents': cs}}
+            if ch is not None and cs[0]['kind'] in CONSENSUS:
+                # the client's context already knows ANOTHER chain: the watermark must use the group's own chain id
+                other = next(c for c in CHAIN_IDS if c != ch)
+                yield {'curve': curve, 'key': encoded_secret(curve, ki), 'chain_id': ch, 'ctx_chain': other,
+                       'group': {'branch': c06.BRANCHES[n % 2], 'contents': cs}}
+    if curve in ('p2', 'sp'):
+        # a family of groups differing only in the counter: ECDSA signatures whose r or s has a leading zero byte turn up
+        # about once in 128 groups, so every key meets several of them
+        tx = {**c06.variants('transaction', 'quick')[0], 'source': src}
+        for i in range(700 if tier == 'quick' else 3000):
+            yield {'curve': curve, 'key': encoded_secret(curve, ki), 'chain_id': None, 'family': i,
+                   'group': {'branch': c06.BRANCHES[0], 'contents': [{**tx, 'counter': str(i)}]}}
 
 
 def shards(tier, seed):
@@ -214,7 +226,7 @@ def run_case(case):
     consensus = kinds[0] in CONSENSUS
     obs = {}
     key = Key.from_encoded_key(case['key'])
-    opg = OperationGroup(context=ExecutionContext(key=key, shell=None), contents=[dict(c) for c in g['contents']],
+    opg = OperationGroup(context=ExecutionContext(key=key, shell=None, chain_id=case.get('ctx_chain')), contents=[dict(c) for c in g['contents']],
                          protocol=PROTOCOL, chain_id=case['chain_id'], branch=g['branch'])
     forged = bytes.fromhex(opg.forge())
     obs['forged'] = forged.hex()
